@@ -33,10 +33,14 @@ MayChange(f) ==
 VARIABLES c, k
 vars == <<c, k>>
 RandSub(S) == LET RECURSIVE Go(_) Go(T) == IF T = {} THEN {} ELSE LET e == CHOOSE z \in T : TRUE IN (IF RandomElement({TRUE, FALSE, FALSE}) THEN {e} ELSE {}) \cup Go(T \ {e}) IN Go(S)
-RandCfg(u) == [dis |-> RandSub(Disable), en |-> RandSub(Enable), toggle |-> RandomElement(Disable \cup Enable)]
+\* the integrator is part of the configuration: eulerdamp only acts under Euler, and the implicit integrators add velocity derivatives of exactly the
+\* force terms that spring / damper / actuation switch (a flag must remove its term from the derivative as well)
+Integrators == {"Euler", "implicit", "implicitfast", "RK4"}
+RandCfg(u) == [dis |-> RandSub(Disable), en |-> RandSub(Enable), toggle |-> RandomElement(Disable \cup Enable),
+               integrator |-> IF RandomElement(1..2) = 1 THEN "Euler" ELSE RandomElement(Integrators)]
 Init == c = RandCfg(0) /\ k = 1
 Next == k < NCfg /\ c' = RandCfg(k) /\ k' = k + 1
 Spec == Init /\ [][Next]_vars
-TypeOK == c.dis \subseteq Disable /\ c.en \subseteq Enable
-EmitCfg == PrintT(<<"EMIT", "cfg", ToJson([dis |-> c.dis, en |-> c.en, toggle |-> c.toggle, maychange |-> MayChange(c.toggle)])>>)
+TypeOK == c.dis \subseteq Disable /\ c.en \subseteq Enable /\ c.integrator \in Integrators
+EmitCfg == PrintT(<<"EMIT", "cfg", ToJson([dis |-> c.dis, en |-> c.en, toggle |-> c.toggle, integrator |-> c.integrator, maychange |-> MayChange(c.toggle)])>>)
 =============================================================================
